@@ -71,7 +71,7 @@ class SigWorld(HistoryWorld):
         else:
             w = [rng.randint(1, 2 ** rng.choice([4, 32, 60])) for _ in range(n)]
         return {'n': n, 'weights': w, 'key_seed': rng.getrandbits(64), 'net': {'drop': rng.choice([0, 0.1, 0.4]), 'dup': rng.choice([0, 0.2, 0.5]), 'jitter': rng.choice([0, 3, 10])},
-                'byz': rng.choice([0, 0, 1, 2]), 'blk_seed': rng.getrandbits(64), 'steps': 3}
+                'byz': rng.choice([0, 0, 1, 2]), 'blk_seed': rng.getrandbits(64), 'steps': 3, 'respell': rng.random() < 0.4}
 
     def new_state(self, ctx):
         cfg = ctx.cfg
@@ -115,7 +115,7 @@ class SigWorld(HistoryWorld):
                 ctx.fault('byzantine-' + kind)
             else:
                 kind = 'valid'
-            sim.after(rng.randrange(5), net.send, 'collector', b'', {'op': {'op': 'arrive', 'v': i, 'kind': kind, 'bit': rng.randrange(512)}})
+            sim.after(rng.randrange(5), net.send, 'collector', b'', {'op': {'op': 'arrive', 'v': i, 'kind': kind, 'bit': rng.randrange(512), 'spell': self._spell(rng, cfg, ctx)}})
         if cfg['byz'] and rng.random() < 0.4:
             ctx.fault('byzantine-foreign')
             sim.after(rng.randrange(5), net.send, 'collector', b'', {'op': {'op': 'arrive', 'v': rng.randrange(3), 'kind': 'foreign', 'bit': 0}})
@@ -124,9 +124,16 @@ class SigWorld(HistoryWorld):
             i = rng.randrange(n)
             ctx.fault('relay-repeats-signer')
             for _ in range(rng.choice([2, 3, 7])):
-                sim.after(rng.randrange(8), net.send, 'collector', b'', {'op': {'op': 'arrive', 'v': i, 'kind': 'valid', 'bit': 0}})
+                sim.after(rng.randrange(8), net.send, 'collector', b'', {'op': {'op': 'arrive', 'v': i, 'kind': 'valid', 'bit': 0, 'spell': self._spell(rng, cfg, ctx)}})
         sim.run()
         st.queue.extend(arrivals)
+
+    def _spell(self, rng, cfg, ctx):
+        """A relay may re-spell the hex id (case, spaces between bytes); the id it denotes is the same."""
+        if not cfg.get('respell') or rng.random() < 0.5:
+            return 'lower'
+        ctx.fault('relay-respells-node-id')
+        return rng.choice(['upper', 'mixed', 'space'])
 
     # ---- execution ----
     def V(self, ctx, invariant, opkind, klass, msg):
@@ -156,7 +163,15 @@ class SigWorld(HistoryWorld):
             b = bytearray(node_id)
             b[(op['bit'] // 8) % 32] ^= 0x80 >> (op['bit'] % 8)
             node_id = bytes(b)
-        return {'node_id_short': node_id.hex(), 'signature': sig, '_v': (op['v'] % len(st.keys)) if kind != 'foreign' and st.keys else None, '_kind': kind}
+        hx = node_id.hex()
+        sp = op.get('spell', 'lower')
+        if sp == 'upper':
+            hx = hx.upper()
+        elif sp == 'mixed':
+            hx = ''.join(ch.upper() if i % 3 == 0 else ch for i, ch in enumerate(hx))
+        elif sp == 'space':
+            hx = ' '.join(hx[i:i + 2] for i in range(0, len(hx), 2))
+        return {'node_id_short': hx, 'signature': sig, '_v': (op['v'] % len(st.keys)) if kind != 'foreign' and st.keys else None, '_kind': kind}
 
     def op_arrive(self, st, op, ctx):
         s = self._sig(st, op)
@@ -286,8 +301,8 @@ class ProofWorld(HistoryWorld):
                 k = (base >> low << low) | wr.getrandbits(low)
             st.accounts[k] = rc.make_account(wr, st.wc, k.to_bytes(32, 'big'))
         st.state = rc.make_shard_state(wr, st.accounts, st.wc)
-        st.old = RCell(rc.rbits(wr, 300))
-        st.block = rc.make_block(wr, st.old, st.state)
+        st.old = rc.random_tree(wr, wr.choice([1, 4, 9]))
+        st.block = rc.make_block(wr, st.old, st.state, partial=wr.random() < 0.6)
         # a second block/state (for cross-block substitutions)
         st.state2 = rc.make_shard_state(wr, {k: rc.make_account(wr, st.wc, k.to_bytes(32, 'big')) for k in list(st.accounts)[:3]}, st.wc)
         st.block2 = rc.make_block(wr, st.old, st.state2)
@@ -298,6 +313,8 @@ class ProofWorld(HistoryWorld):
         y = RCell(rc.rbits(wr, 17), (x, c))
         st.nested = RCell(rc.rbits(wr, 9), (merkle_proof_of(y), d))
         st.nested_proof_child = RCell(st.nested.bits, (RCell(merkle_proof_of(y).bits, (RCell(y.bits, (pruned_of(x, 2), c)),), True, strict=False), d))
+        # random trees embedding partially pruned Merkle proofs / updates: the outer prover prunes next to and below them
+        st.tree_m = rc.random_tree_with_merkle(wr, max(4, cfg['tree'] // 2))
         return st
 
     def gen_op(self, st, ctx):
@@ -322,16 +339,17 @@ class ProofWorld(HistoryWorld):
         """Honest prover: prune a seeded set of subtrees, never on keep_path (nor its ancestors/descendants)."""
         rng = random.Random(seed)
         cand = []
-        for path, c in rc.subtrees(root):
-            if c.special or c.mask:
+        for path, c, d in rc.subtrees_md(root):
+            if (c.special and not rc.is_merkle(c)) or c.mask >= (1 << d):
                 continue
             if keep_path is not None and (keep_path[:len(path)] == path or path[:len(keep_path)] == keep_path):
                 continue
-            if any(path[:len(p)] == p or p[:len(path)] == path for p in keep_prefixes):
+            # a kept prefix (the state_update cell of a block) must stay itself; below it the prover may prune (at level 2)
+            if any(p[:len(path)] == path for p in keep_prefixes):
                 continue
             cand.append(path)
         chosen = [p for p in cand if rng.random() < frac]
-        return rc.prune_paths(root, chosen), len(chosen)
+        return rc.prune_paths_md(root, chosen), len(chosen)
 
     def _encode(self, roots, seed):
         rng = random.Random(seed)
@@ -440,6 +458,15 @@ class ProofWorld(HistoryWorld):
             expected = tree.hash
             child, npr = st.nested_proof_child, 1
             ctx.probe('nested-merkle-levels')
+        elif op['prune_seed'] % 5 in (1, 2):
+            tree = st.tree_m
+            expected = tree.hash
+            child, npr = self._prune(tree, op['prune_seed'], op['prune_frac'])
+            ctx.probe('tree-with-inner-merkle-cells')
+            if any(c.special and c.type == 1 and c.mask >= 2 for c in child.walk()):
+                ctx.probe('level-2-pruned-branch-in-proof')
+            if any((not c.special) and len(set(r.mask for r in c.refs if r.mask)) > 1 for c in child.walk()):
+                ctx.probe('siblings-with-different-level-masks')
         if npr:
             ctx.probe('pruned-subtrees')
         proof = merkle_proof_of(child)
